@@ -1,5 +1,28 @@
 prop("C04", pkg="c04",
-     rule="TODO",
+     rule="Each case is drawn with pgregory.net/rapid: one struct type from harness/tgen (reflect.StructOf over a serialisable descriptor: 0-10 own fields "
+          "(64-140 for the 'wide' shape), ids from seven layout classes - consecutive, gaps <= 15, one gap = 16, gaps > 16, id range > 64, > 128, ids up to "
+          "32767 - declared in ascending, descending or shuffled order; field kinds bool, int8..int64, int, float64, float32, string, []byte, lists, maps, "
+          "sets (map[K]struct{}), structs, *struct, *scalar, **bool, embedded structs and *structs, union structs, named corpus types incl. a recursive one; "
+          "tags required / optional / enum), 2-5 value recipes for it (boundary-weighted integers, special float bit patterns, list lengths 0/1/14/15/16/>16/127+), "
+          "and a protocol schedule. Every value is put through Marshal/Unmarshal and a fresh Encoder/Decoder for all three protocols, through one Encoder and one "
+          "Decoder Reset before each value across the scheduled protocols, and through one Encoder/Decoder over a single stream. While the decoder defect "
+          "KF-C04-001 is listed as known, id layouts whose range exceeds the decoder's bitmap are rewritten to a narrower layout (counted in excluded_known) "
+          "so that the remaining clauses are still exercised. Non-trivial = at least one value of the case encodes >= 2 top-level fields; "
+          "distinct = FNV-64 of the serialised case (type descriptor, recipes, schedule).",
      quick=dict(shards=16, scale=1, timeout=600),
      thorough=dict(shards=16, scale=12, timeout=3000),
-     technique="TODO", level_text="TODO", level_note="TODO", assumptions=[])
+     technique="property-based testing (rapid) with generated Go struct types: round trip, reused-vs-fresh codec and cross-protocol metamorphic oracles under a "
+               "reflection-based equality modulo nil/empty collections",
+     level_text="Exploration: ~0.22 M generated (type, values, codec schedule) cases per quick run (~2.7 M thorough) are round-tripped through all three protocols "
+                "and every codec mode; any value that does not come back equal (nil and empty collections identified, floats by bit pattern), any byte difference "
+                "between a reused and a fresh Encoder, any disagreement between protocols, and any panic is reported with the shrunk case. Nothing is proved "
+                "about types or values outside the generator's bounds (nesting depth <= 3 (4 thorough), <= 140 fields, collections <= 130 elements).",
+     level_note="Trusted base: harness/tgen (type materialisation, value builder, equality). Domain restrictions (not generated, normalised by the builder): no unsigned "
+                "kinds; pointers inside collections and the inner pointer of **bool are non-nil; required pointer fields are non-nil; an embedded *struct is nil exactly "
+                "when none of its fields would be encoded; no NaN map keys; -0.0 is not stored directly in a struct field (it is a Go zero value and is omitted); enum "
+                "values fit int32; a union has at most one non-zero member and its interface holds a pointer to a copy of it. Bytes of values containing a map "
+                "with >= 2 entries are compared by length only (Go map order).",
+     assumptions=["equality is 'mod nil/empty': nil and empty slices/maps are equal; floats compare by bit pattern (float map keys by ==)",
+                  "the zero-omission of non-required fields is taken as documented behaviour, so -0.0 directly in a struct field is outside the domain",
+                  "a union interface field is compared by the shape thrift_test.go documents: nil, or a pointer to a value equal to the single set member",
+                  "while KF-C04-001 is 'known' struct types whose id range exceeds 64*(nfields/64+1) are not generated (count in excluded_known)"])
